@@ -1,14 +1,101 @@
 /-
   C11 — listby/unlist, groupby/ungroup and pivot/unpivot are lossless regroupings.
+  Property theorems only (helper lemmas: PygProofs/Lemmas/JoinLemmas.lean, GroupLemmas.lean).
+
+  `keys` are the per-row keys `d[by]` (one tuple per row); key equality is `cmp · · = .eq`
+  (numeric equality of ints and floats, `None = None`, `NaN = NaN`: C07 / C02).
 -/
 import PygModel.Group
-import PygProofs.Lemmas.JoinLemmas
+import PygProofs.Lemmas.GroupLemmas
 
 namespace Pyg.Props.C11
 open Pyg
 
-/-- an empty table is returned as it is -/
-theorem listby_empty (t : Table) (by_ : List String) (h : t.nrows = 0) : t.listby by_ = .ok t.toV := by
-  simp [Table.listby, h]
+/-! ## the regrouping itself (`_listby`), for all key lists -/
+
+/-- **one group per distinct key**: group keys are pairwise different (strictly increasing under
+`cmp`), and every row's key is `cmp`-equal to the key of exactly one group -/
+theorem listby_distinct (keys : List Val) :
+    (listbyG keys).Pairwise (fun a b => cmp a.1 b.1 = .lt) ∧
+    ∀ i, i < keys.length →
+      ∃ g ∈ listbyG keys, cmp (keyAt keys i) g.1 = .eq ∧
+        ∀ g' ∈ listbyG keys, cmp (keyAt keys i) g'.1 = .eq → g' = g := by
+  refine ⟨listbyG_sorted keys, fun i hi => ?_⟩
+  obtain ⟨g, hg, hig⟩ := mem_listbyG.2 hi
+  have he := ((mem_group_iff hg).1 hig).2
+  refine ⟨g, hg, he, fun g' hg' he' => ?_⟩
+  exact group_unique (listbyG_sorted keys) hg' hg (cmp_eq_trans (cmp_eq_symm he') he)
+
+/-- **original row order inside a group**: the row ids of a group are exactly the rows whose key
+equals the group's key, listed in increasing (= original) order -/
+theorem listby_order (keys : List Val) (g : Grp) (hg : g ∈ listbyG keys) :
+    g.2 = (List.range keys.length).filter fun i => cmp (keyAt keys i) g.1 == .eq :=
+  group_eq_filter hg
+
+/-- **unlist ∘ listby is the stable sort**: reading the groups one after the other visits the rows in
+the order of the stable sort of the keys (`dictable.sort`'s row permutation, C07) -/
+theorem unlist_listby_ids (keys : List Val) :
+    (listbyG keys).flatMap (·.2) = sortIdx keys :=
+  listbyG_flat keys
+
+/-- **group sizes add up to `len(d)`**, and no group is empty -/
+theorem groupby_sizes (keys : List Val) (h : keys ≠ []) :
+    ((listbyG keys).map (·.2.length)).sum = keys.length ∧ ∀ g ∈ listbyG keys, g.2 ≠ [] :=
+  ⟨group_sizes keys, listbyG_nonempty h⟩
+
+/-- **ungroup ∘ groupby restores the multiset of rows**: the concatenated row ids of the groups are
+a permutation of `0 … n-1` -/
+theorem ungroup_groupby_ids (keys : List Val) :
+    ((listbyG keys).flatMap (·.2)).Perm (List.range keys.length) :=
+  listbyG_perm keys
+
+/-! ## the tables built from the groups -/
+
+/-- `listby` on a non-empty table with explicit keys: key columns hold the group keys, every other
+column holds, per group, the list of that group's cells (by `listby_order`: in original row order) -/
+theorem listby_table (t : Table) (by_ : List String) (keys : List Val)
+    (hn : t.nrows ≠ 0) (hb : by_ ≠ []) (hk : t.keysOf (by_.map .col) = .ok keys) :
+    t.listby by_ = .ok (keyColsOf by_ (listbyG keys) ++
+      (t.others by_).map fun c => (c.1, (listbyG keys).map fun g => .list (pick c.2 g.2))) := by
+  have hb' : by_.isEmpty = false := by cases by_ <;> simp_all
+  simp [Table.listby, hn, hb', hk, bind, Except.bind, pure, Except.pure]
+
+/-- `groupby` likewise: one sub-table per group holding that group's rows of the other columns -/
+theorem groupby_table (t : Table) (by_ : List String) (grp : String) (keys : List Val)
+    (hn : t.nrows ≠ 0) (hb : by_ ≠ []) (hlt : by_.length ≠ t.cols.length)
+    (hk : t.keysOf (by_.map .col) = .ok keys) :
+    t.groupby by_ grp = .ok (keyColsOf by_ (listbyG keys) ++
+      [(grp, (listbyG keys).map fun g => subTable (t.others by_) g.2)]) := by
+  have hb' : by_.isEmpty = false := by cases by_ <;> simp_all
+  have hl : by_.length ≠ 0 := by cases by_ <;> simp_all
+  simp [Table.groupby, hn, hb', hl, hlt, hk, bind, Except.bind, pure, Except.pure]
+
+/-- grouping on all columns is rejected (`ValueError`), as in the code -/
+theorem groupby_all_keys (t : Table) (grp : String) (hn : t.nrows ≠ 0) :
+    t.groupby t.cols grp = .error .value := by
+  have hc : t.cols.length ≠ 0 := by
+    cases t with
+    | nil => simp [Table.nrows] at hn
+    | cons c cs => simp [Table.cols]
+  have hc' : t.cols.isEmpty = false := by cases h : t.cols <;> simp_all
+  simp [Table.groupby, hn, hc, hc']
+
+/-! ## non-vacuity and evaluation tests -/
+
+def exT : Table := [("a", [.int 2, .flt 4, .int 1, .flt 8, .none]), ("v", [.int 10, .int 11, .int 12, .int 13, .int 14])]
+
+example : exT.nrows ≠ 0 ∧ ["a"] ≠ [] ∧ ["a"].length ≠ exT.cols.length ∧
+    exT.keysOf ([("a")].map .col) = .ok [.tuple [.cell (.int 2)], .tuple [.cell (.flt 4)],
+      .tuple [.cell (.int 1)], .tuple [.cell (.flt 8)], .tuple [.cell .none]] := by
+  refine ⟨by decide, by decide, by decide, rfl⟩
+
+#guard (listbyG [.tuple [.cell (.int 2)], .tuple [.cell (.flt 4)], .tuple [.cell (.int 1)],
+    .tuple [.cell (.flt 8)], .tuple [.cell .none]]).map (·.2) == [[4], [1, 2], [0, 3]]
+#guard (match exT.listby ["a"] with
+  | .ok l => (match l.unlist with
+    | .ok u => u == [("a", [.cell .none, .cell (.int 1), .cell (.int 1), .cell (.flt 8), .cell (.flt 8)]),
+                     ("v", [.cell (.int 14), .cell (.int 11), .cell (.int 12), .cell (.int 10), .cell (.int 13)])]
+    | _ => false)
+  | _ => false)
 
 end Pyg.Props.C11
